@@ -620,6 +620,12 @@ func build(c *harness.Case, rules polprog.Rules, ids polexec.IDs, opts polexec.O
 				}
 				continue
 			}
+			if bpfsys.Transient(err) {
+				c.Count("transient_kernel_errors", 1)
+				c.Inconclusive("transient kernel error while loading a program: " + err.Error())
+				e.close()
+				return nil, false
+			}
 			d := detail()
 			d["error"] = err.Error()
 			if le, ok := err.(*polexec.LoadError); ok {
